@@ -985,9 +985,7 @@ func ruleC15SegmentOpsMatchFlag(c *Ctx) {
 			if !ok {
 				ok = holdsOnAllEntries(i.Block(), func(facts []Fact) bool {
 					for _, fct := range facts {
-						if fct.Sub != nil {
-							continue
-						}
+						// (a fact that every call site of an unexported helper establishes counts: the test then sits in the caller)
 						if ld, isL := resolve(fct.V).(*ssa.UnOp); isL && ld.Op == token.MUL {
 							if fa, isF := ld.X.(*ssa.FieldAddr); isF && fieldName(fa.X.Type(), fa.Field) == "protected" && fct.True == want {
 								return true
